@@ -285,3 +285,92 @@ def shared_table_mutations(repo, names, modules_prefix="bellows"):
             elif isinstance(n, ast.Global) and names & set(n.names):
                 out.append((f, n, "rebinds the table (global statement)"))
     return out
+
+
+class FutureSim:
+    """Abstract asyncio futures for scenario rules that drive several steps on one object: creation, completion, done
+    callbacks (queued like ``call_soon`` and run when the scenario says the loop turns), cancellation.  Futures are
+    identified by their tag (``fut1``, ``fut2`` ...); the models key on the callee's receiver."""
+
+    def __init__(self):
+        self.state, self.queue, self.n = {}, [], 0
+
+    def reset(self):
+        self.state, self.queue, self.n = {}, [], 0
+
+    def new(self, *_):
+        self.n += 1
+        tag = f"fut{self.n}"
+        o = Obj(TypeRef("asyncio.Future"), {}, tag=tag)
+        self.state[tag] = {"obj": o, "done": False, "result": None, "exc": None, "cancelled": False, "cbs": []}
+        return o
+
+    def _st(self, px):
+        tag = (getattr(px, "_callee", "") or "").split(".")[0]
+        if tag not in self.state:
+            raise AnalysisError(f"future method called on {tag!r}, which the scenario did not create")
+        return self.state[tag]
+
+    def _finish(self, st):
+        st["done"] = True
+        for cb in st["cbs"]:
+            self.queue.append((cb, st["obj"]))
+        st["cbs"] = []
+
+    def models(self):
+        from ..px import OK, RAISE, Outcomes
+
+        def set_result(px, t, a, k, fr):
+            st = self._st(px)
+            if st["done"]:
+                return Outcomes(RAISE("InvalidStateError"))
+            st["result"] = a[0] if a else None
+            self._finish(st)
+            return Outcomes(OK(None))
+
+        def set_exception(px, t, a, k, fr):
+            st = self._st(px)
+            if st["done"]:
+                return Outcomes(RAISE("InvalidStateError"))
+            st["exc"] = a[0] if a else None
+            self._finish(st)
+            return Outcomes(OK(None))
+
+        def cancel(px, t, a, k, fr):
+            st = self._st(px)
+            if st["done"]:
+                return False
+            st["cancelled"] = True
+            self._finish(st)
+            return True
+
+        def add_cb(px, t, a, k, fr):
+            st = self._st(px)
+            if st["done"]:
+                self.queue.append((a[0], st["obj"]))
+            else:
+                st["cbs"].append(a[0])
+            return None
+
+        def remove_cb(px, t, a, k, fr):
+            st = self._st(px)
+            n = len(st["cbs"])
+            st["cbs"] = [c for c in st["cbs"] if c is not a[0]]
+            return n - len(st["cbs"])
+
+        return [("*.create_future", lambda px, t, a, k, fr: self.new()), ("asyncio.Future", lambda px, t, a, k, fr: self.new()),
+                ("*.set_result", set_result), ("*.set_exception", set_exception), ("*.cancel", cancel),
+                ("*.add_done_callback", add_cb), ("*.remove_done_callback", remove_cb),
+                ("*.done", lambda px, t, a, k, fr: self._st(px)["done"]), ("*.cancelled", lambda px, t, a, k, fr: self._st(px)["cancelled"])]
+
+    def run_loop(self, px):
+        """One turn of the event loop: run the queued done-callbacks (callbacks queued meanwhile run in the same call)."""
+        while self.queue:
+            cb, fobj = self.queue.pop(0)
+            px.do_call(cb, "done_callback", [fobj], {}, None, None, False)
+
+    def is_done(self, fobj):
+        return self.state[fobj.tag]["done"]
+
+    def result(self, fobj):
+        return self.state[fobj.tag]["result"]
